@@ -135,6 +135,53 @@ theorem durable_is_stable {s' : State} {evs : List Event} (hr : Reachable nSer s
   rw [List.getElem?_append_left hlt]
   exact hi
 
+/-- The content prescribed for an epoch that is already durable can no longer change: along every
+further schedule the sequential specification restricted to the first `k ≤ applied.length` epochs
+is the same function of the LATER state's submission list, so the store at `s` is a prefix
+evaluation of the specification of every later state (in particular of the state at shutdown, cf.
+`final_content`): what has been made durable is exactly what the final sequential order prescribes
+for those epochs, not merely what the history up to `s` prescribed. -/
+theorem durable_content_is_final {s' : State} {evs : List Event} (hr : Reachable nSer s)
+    (h : run s evs = some s') :
+    (∀ k, k ≤ s.applied.length → seqSpec s' k = seqSpec s k) ∧
+    s.store = seqSpec s' s.applied.length := by
+  have hA := reachable_allInv s hr
+  have hA' := reachable_allInv s' (run_reachable hr evs h)
+  obtain ⟨r, hpre⟩ : s.applied <+: s'.applied := flatten_prefix (run_mono h).1
+  have hc : ∀ e, e < s.applied.length → s'.contentOf e = s.contentOf e := by
+    intro e he
+    have hmem : s.applied[e] ∈ s.applied := List.getElem_mem he
+    have hep : (s.applied[e]).epoch = e := by
+      have h1 := applied_epochs hA
+      have h2 : (s.applied.map Task.epoch)[e]? = (List.range s.applied.length)[e]? := by rw [h1]
+      simp only [List.getElem?_map, List.getElem?_eq_getElem he, Option.map_some,
+        List.getElem?_range he, Option.some.injEq] at h2
+      exact h2
+    have c1 := hA.inv.contentOf_eq (applied_sub_places s _ hmem)
+    have hmem' : s.applied[e] ∈ s'.applied := by
+      rw [← hpre]; exact List.mem_append_left _ hmem
+    have c2 := hA'.inv.contentOf_eq (applied_sub_places s' _ hmem')
+    rw [hep] at c1 c2
+    rw [c1, c2]
+  have hk : ∀ k, k ≤ s.applied.length → seqSpec s' k = seqSpec s k := by
+    intro k hk
+    unfold seqSpec
+    have : ∀ (l : List Nat) (st : Store), (∀ e ∈ l, e < s.applied.length) →
+        l.foldl (fun st e => applyOps st (s'.contentOf e)) st =
+        l.foldl (fun st e => applyOps st (s.contentOf e)) st := by
+      intro l
+      induction l with
+      | nil => intros; rfl
+      | cons x xs ih =>
+        intro st hx
+        simp only [List.foldl_cons]
+        rw [hc x (hx x List.mem_cons_self)]
+        exact ih _ (fun e he => hx e (List.mem_cons_of_mem _ he))
+    apply this
+    intro e he
+    exact Nat.lt_of_lt_of_le (List.mem_range.mp he) hk
+  exact ⟨hk, by rw [hk _ (Nat.le_refl _)]; exact store_eq_seqSpec hA⟩
+
 /-- Writes of one logical batch touch pairwise distinct store keys (the batch is a set of hash maps),
 so the hash-map iteration order inside a batch is irrelevant. -/
 theorem within_batch_commutes {l₁ l₂ : List WOp} (hp : l₁.Perm l₂) (hn : (l₁.map WOp.key).Nodup)
@@ -250,6 +297,12 @@ applied at the cut, three at the end, and the first one is still the same batch.
 example : ∃ s s', run (init 2) (sched1.take 23) = some s ∧ run s (sched1.drop 23) = some s' ∧
     s.applied.map Task.epoch = [0] ∧ s'.applied.map Task.epoch = [0, 1, 2] :=
   ⟨_, _, rfl, rfl, rfl, rfl⟩
+
+/-- … and at that cut the store already holds what the FINAL specification prescribes for epoch 0
+(key 1 ↦ 10, key 2 ↦ 20), although epochs 1 and 2 overwrite both keys later. -/
+example : ∃ s s', run (init 2) (sched1.take 23) = some s ∧ run s (sched1.drop 23) = some s' ∧
+    seqSpec s' 1 (k 1) = some 10 ∧ seqSpec s' 1 (k 2) = some 20 ∧ s'.store (k 1) = some 12 :=
+  ⟨_, _, rfl, rfl, rfl, rfl, rfl⟩
 
 example : ∃ s, Reachable 2 s ∧ s.dpc = .returned :=
   ⟨_, run_reachable .init sched1 rfl, rfl⟩
